@@ -401,7 +401,8 @@ class ComposedNode(ConfigNode):
         ret['implicit_delete'] = notnone_or(self._delete, self._default_delete or self._implicit_delete)
         ret['implicit_allow_new'] = notnone_or(self._allow_new, self._implicit_allow_new)
         if child is None or getattr(child, '_implicit_safe') is not False: # do not set "implicit_safe" arg if the child exists and already has it set to False (note: I think it's not strictly necessary to handle it here since other checks would still prevent changes)
-            ret['implicit_safe'] = notnone_or(self._safe, self._implicit_safe)
+            # (unsafety handed down from above stays: a node is safe when all its flags say so, a "safe: True" of its own lifts nothing)
+            ret['implicit_safe'] = False if self._implicit_safe is False else notnone_or(self._safe, self._implicit_safe)
         return ret
 
     def _propagate_implicit_values(self):
@@ -409,7 +410,7 @@ class ComposedNode(ConfigNode):
             return
         if self._implicit_delete is None and self._implicit_allow_new is None and self._implicit_safe is None:
             return
-        if self._delete is not None and self._allow_new is not None and self._safe is not None:
+        if self._delete is not None and self._allow_new is not None and self._safe is not None and not (self._safe and self._implicit_safe is False):
             return
 
         for child in self._children.values():
@@ -424,7 +425,7 @@ class ComposedNode(ConfigNode):
                 if child._implicit_allow_new != self._implicit_allow_new:
                     child._implicit_allow_new = self._implicit_allow_new
                     fix = True
-            if self._safe is None:
+            if self._safe is None or (self._safe and self._implicit_safe is False):
                 if child._implicit_safe != self._implicit_safe:
                     if child._implicit_safe is not False:
                         child._implicit_safe = self._implicit_safe
